@@ -982,8 +982,14 @@ def create_to_PyList(fmt):
 {PY_helper_static}{hnameproto}
 {{+
 PyObject *out = PyList_New(size);
+if (out == {nullptr}) return {nullptr};
 for (size_t i = 0; i < size; ++i) {{+
-PyList_SET_ITEM(out, i, {Py_ctor});
+PyObject *item = {Py_ctor};
+if (item == {nullptr}) {{+
+Py_DECREF(out);
+return {nullptr};
+-}}
+PyList_SET_ITEM(out, i, item);
 -}}
 return out;
 -}}""", fmt),
@@ -1169,8 +1175,14 @@ def add_to_PyList_helper_vector(fmt, ntypemap):
 {{+
 size_t size = in.size();
 PyObject *out = PyList_New(size);
+if (out == {nullptr}) return {nullptr};
 for (size_t i = 0; i < size; ++i) {{+
-PyList_SET_ITEM(out, i, {Py_ctor});
+PyObject *item = {Py_ctor};
+if (item == {nullptr}) {{+
+Py_DECREF(out);
+return {nullptr};
+-}}
+PyList_SET_ITEM(out, i, item);
 -}}
 return out;
 -}}""",
